@@ -10,7 +10,7 @@ TDF = P + "target_digest_and_filename"
 
 
 def run(chk, prog):
-    chk.rules_live = ["R1", "R2", "R3", "R4", "R5"]
+    chk.rules_live = ["R1", "R2", "R3", "R4", "R5", "R6"]
     chk.explanation = (
         "Provenance rules over MIR: read_target returns Some(stream) only with stream = fetch_target("
         "entry, digest, file) where entry is the Ok payload of find_target(name) on the trusted targets "
@@ -19,7 +19,9 @@ def run(chk, prog):
         "entry.hashes.sha256 and the file name is RESOLVED / HEX(sha256).RESOLVED exactly under "
         "consistent_snapshot; targets_base_url is read only by fetch_target; plus the adapter rules of "
         "C05 (chunk passed on only while size <= bound, end of stream only on digest equality) and the "
-        "who-may-fetch rule of C09.")
+        "who-may-fetch rule of C09. R6: the entry whose digest and length are enforced is the one "
+        "find_target selects — C07's lookup obligations (own entry first, delegates in listed order, "
+        "path match before descent) are re-evaluated here.")
     chk.not_decided = ["run-time chunking (the adapter rules are per chunk and hold for any chunking)",
                        "that callers stop using data after an Err item"]
     chk.assumptions = ["aws-lc-rs SHA-256"]
@@ -176,6 +178,8 @@ def run(chk, prog):
     c05.r4_adapters(sub, prog)
     c05.r5_composition(sub, prog)
     c09.r1_who_may_fetch(sub, prog)
+    from . import c07
+    c07.run(SubCheck(chk, "R6"), prog)
 
 
 class SubCheck:
